@@ -152,8 +152,13 @@ static void muggle_socket_evloop_on_wake(muggle_event_loop_t *evloop)
 
 		muggle_socket_context_t *ctx = (muggle_socket_context_t*)node->data;
 
-		muggle_evloop_add_ctx(evloop, (muggle_event_context_t*)ctx);
-		if (handle->cb_add_ctx)
+		if (muggle_evloop_add_ctx(evloop, (muggle_event_context_t*)ctx) != 0)
+		{
+			// failed add into event loop (e.g. capacity reached): the context
+			// will never be seen by on_close/on_clear, release it here
+			muggle_socket_evloop_release_ctx(evloop, ctx);
+		}
+		else if (handle->cb_add_ctx)
 		{
 			handle->cb_add_ctx(evloop, ctx);
 		}
